@@ -221,7 +221,7 @@ var c27deprecated = []string{
 var c27cfgInvalid = []string{
 	"Network:\n  ListenAdr: 0.0.0.0:%d\n",           // unknown field
 	"Traces:\n  BatchTimeout: %d\n",                  // wrong type (not a duration string)
-	"AccessKeys:\n  SendKeyMode: bogus%d\n",          // not one of the choices
+	"Logger:\n  Type: bogus%d\n",                    // not one of the choices
 	"NoSuchGroup:\n  Value: %d\n",                    // unknown group
 	"StressRelief:\n  ActivationLevel: %d00000\n",    // above the maximum
 	"Network:\n  HoneycombAPI: \"ftp://example%d\"\n", // url with a wrong scheme
@@ -323,6 +323,7 @@ type c27file struct {
 	applied []byte // content the running config was built from
 	disk    []byte // nil = unreadable
 	kc      int    // marker of the applied content
+	kcOK    bool   // the applied content carries that marker
 }
 
 type c27step struct {
@@ -408,7 +409,21 @@ func TestVerif_C27(t *testing.T) {
 	run.Assume("NewConfig(opts, version) on the same files in the same step is what 'startup would accept' means; the version string is the one the instance was started with")
 	run.Assume("a changed file always differs in a configuration value (comment-only edits are not generated)")
 
-	run.Cases("history", run.N(22, 420), func(i int, rng *verifkit.Rand) { c27history(t, run, rng) })
+	run.Cases("history", run.N(40, 260), func(i int, rng *verifkit.Rand) { c27history(t, run, rng) })
+
+	// The race detector's view of overlapping reloads goes into the evidence as a counter
+	// (the verdict on races belongs to C35; here the refuting observation is the double
+	// application under lock pinning).
+	if files, _ := filepath.Glob(filepath.Join(run.OutDir(), "race.config.*")); len(files) > 0 {
+		for _, f := range files {
+			b, _ := os.ReadFile(f)
+			for _, rep := range strings.Split(string(b), "WARNING: DATA RACE")[1:] {
+				if strings.Count(rep, c27reloadFrame) >= 2 {
+					run.Count("race_reports_reload_vs_reload", 1)
+				}
+			}
+		}
+	}
 }
 
 func c27history(t *testing.T, run *verifkit.Run, rng *verifkit.Rand) {
@@ -440,6 +455,7 @@ func c27history(t *testing.T, run *verifkit.Run, rng *verifkit.Rand) {
 	for _, f := range append(append([]*c27file{}, cfgs...), rules) {
 		c27write(t, f.path, f.disk)
 		f.applied = f.disk
+		f.kcOK = true
 	}
 	args := []string{}
 	for _, f := range cfgs {
@@ -498,6 +514,11 @@ func c27history(t *testing.T, run *verifkit.Run, rng *verifkit.Rand) {
 	if nCfg == 2 {
 		diskMarker[cfgs[1]] = cfgs[1].kc
 	}
+	// markerOK: the disk content is one of the marker-carrying generators (valid/warning)
+	markerOK := map[*c27file]bool{cfgs[0]: true, rules: true}
+	if nCfg == 2 {
+		markerOK[cfgs[1]] = true
+	}
 
 	for st := 0; st < steps; st++ {
 		if rng.Chance(0.15) && len(listeners) < 4 {
@@ -531,6 +552,9 @@ func c27history(t *testing.T, run *verifkit.Run, rng *verifkit.Rand) {
 			}
 			rec.CfgKinds = append(rec.CfgKinds, string(kind))
 			k := fresh()
+			if kind != c27Unchanged {
+				markerOK[f] = (kind == c27Restore && f.kcOK) || kind == c27Valid || kind == c27Warn
+			}
 			switch kind {
 			case c27Unchanged:
 			case c27Restore:
@@ -583,6 +607,9 @@ func c27history(t *testing.T, run *verifkit.Run, rng *verifkit.Rand) {
 			}
 			rec.RulesKind = string(kind)
 			k := fresh()
+			if kind != c27Unchanged {
+				markerOK[rules] = (kind == c27Restore && rules.kcOK) || kind == c27Valid
+			}
 			switch kind {
 			case c27Restore:
 				rules.disk = rules.applied
@@ -730,15 +757,19 @@ func c27history(t *testing.T, run *verifkit.Run, rng *verifkit.Rand) {
 			if nCfg == 2 {
 				ks = diskMarker[cfgs[1]]
 			}
+			allMarked := true
+			for _, ok := range markerOK {
+				allMarked = allMarked && ok
+			}
 			for gname, want := range c27markers(diskMarker[cfgs[0]], ks, diskMarker[rules]) {
-				if after[gname] != want {
+				if allMarked && after[gname] != want {
 					run.Violation("C27/Reload/applied-values-differ-from-file-content",
 						fmt.Sprintf("after an applied reload %s = %s, the files say %s", gname, after[gname], want), witness())
 				}
 			}
 		case expectApply && gotOld:
 			if refErr != nil {
-				run.Violation("C27/Reload/"+conc+"warning-only-change-not-applied",
+				run.Violation("C27/Reload/warning-only-change-not-applied",
 					"startup (NewConfig on the same files) accepts the changed files with warnings, Reload applied nothing",
 					witness(c27diffText(c27diff(after, refSnap), after, refSnap)...))
 			} else {
@@ -747,7 +778,7 @@ func c27history(t *testing.T, run *verifkit.Run, rng *verifkit.Rand) {
 					witness(c27diffText(c27diff(after, refSnap), after, refSnap)...))
 			}
 		case expectApply:
-			run.Violation("C27/Reload/"+conc+"change-partially-applied",
+			run.Violation("C27/Reload/change-partially-applied",
 				"after reloading an acceptable change the getters match neither the new nor the previous configuration",
 				witness(c27diffText(c27diff(after, refSnap), after, refSnap)...))
 		case !gotOld:
@@ -756,7 +787,7 @@ func c27history(t *testing.T, run *verifkit.Run, rng *verifkit.Rand) {
 			if changed || !readable {
 				cls = "content-startup-rejects"
 			}
-			run.Violation("C27/Reload/"+conc+"running-config-altered-by-"+cls,
+			run.Violation("C27/Reload/running-config-altered-by-"+cls,
 				"the files are "+rec.Startup+"/changed="+fmt.Sprint(changed)+" but the getters changed",
 				witness(c27diffText(c27diff(after, before), after, before)...))
 		default:
@@ -779,7 +810,7 @@ func c27history(t *testing.T, run *verifkit.Run, rng *verifkit.Rand) {
 				run.Count("notifications_checked", 1)
 			case expectApply && len(calls) == 0:
 				if gotNew {
-					run.Violation("C27/Reload/"+conc+"listener-not-notified-of-applied-change",
+					run.Violation("C27/Reload/listener-not-notified-of-applied-change",
 						fmt.Sprintf("listener %d of %d got no callback for an applied change", li, len(listeners)), witness())
 				}
 				// (not applied at all is reported above)
@@ -787,7 +818,7 @@ func c27history(t *testing.T, run *verifkit.Run, rng *verifkit.Rand) {
 				run.Violation("C27/Reload/"+conc+"change-applied-more-than-once",
 					fmt.Sprintf("listener %d got %d callbacks %v for one change (%d reloaders, mode %s)", li, len(calls), calls, g, mode), witness())
 			case len(calls) != 0:
-				run.Violation("C27/Reload/"+conc+"listener-notified-without-applied-change",
+				run.Violation("C27/Reload/listener-notified-without-applied-change",
 					fmt.Sprintf("listener %d got %d callbacks although nothing was to be applied (startup %s, changed=%v)", li, len(calls), rec.Startup, changed), witness())
 			}
 		}
@@ -800,6 +831,7 @@ func c27history(t *testing.T, run *verifkit.Run, rng *verifkit.Rand) {
 				for _, f := range append(append([]*c27file{}, cfgs...), rules) {
 					f.applied = f.disk
 					f.kc = diskMarker[f]
+					f.kcOK = markerOK[f]
 				}
 			}
 		}
